@@ -509,7 +509,7 @@ func poolOwnership(c *core.Ctx) {
 			o := astx.ObjOf(info, call.Args[0])
 			usedAfter := false
 			ast.Inspect(fd.Body, func(x ast.Node) bool {
-				if id, ok := x.(*ast.Ident); ok && id.Pos() > call.End() && info.Uses[id] == o {
+				if id, ok := x.(*ast.Ident); ok && info.Uses[id] == o && !astx.Contains(call, id) && astx.Precedes(fd.Body, call, id) {
 					usedAfter = true
 				}
 				return true
